@@ -526,5 +526,131 @@ theorem aLoop_sem (e : Event)
 
 end
 
+/-! ## One node, then whole trees -/
+
+theorem selB_append (v1 v2 : List Val) (l1 l2 : List (Option LNode)) (h : v1.length = l1.length) (x : List Nat) :
+    selB (v1 ++ v2) (l1 ++ l2) x = (selB v1 l1 x || selB v2 l2 x) := by
+  simp only [selB, matched_append v1 v2 l1 l2 h, List.any_append]
+
+/-- a node property that depends on the node only, for all steps of `S` -/
+def HitOk (S : List Step) (n : Node) : Prop :=
+  ∀ s ∈ S, ∀ loc : List Nat, hitE ns vs s (nodeEvent n) = hitR ns (toXVars vs) s ⟨loc, n⟩
+
+section
+variable (S : List Step)
+
+/-- the loop at the event of node `c`, started from the positions handed down by the parent -/
+theorem aVisit (hna : ∀ s ∈ S, s.axis ≠ .attribute) (hnp : ∀ s ∈ S, NonPositional ns (toXVars vs) s)
+    (c : LNode) (hhit : HitOk ns vs S c.node) (P : List Nat) (hP : NOut S P) (fuel : Nat) (hfuel : S.length < fuel) :
+    NOut S (aLoop ns vs S S.length (nodeEvent c.node) fuel (P.map fun x => (x, true)) ⟨[], false⟩).nextPos ∧
+    ∀ t : LNode, P.any (fun x => RR ns (toXVars vs) S x c t) =
+      (((aLoop ns vs S S.length (nodeEvent c.node) fuel (P.map fun x => (x, true)) ⟨[], false⟩).matched && c.loc == t.loc) ||
+        CHN ns vs S c t (aLoop ns vs S S.length (nodeEvent c.node) fuel (P.map fun x => (x, true)) ⟨[], false⟩).nextPos) := by
+  have hinv : LInv S fuel (P.map fun x => ((x, true) : AEntry)) [] := by
+    refine ⟨?_, ?_, ?_, by simp, by simp, by simp⟩
+    · rw [List.pairwise_map]; exact hP.1
+    · intro en hen
+      simp only [List.mem_map] at hen
+      obtain ⟨x, hx, rfl⟩ := hen
+      exact hP.2 x hx
+    · intro en hen; omega
+  have hh : ∀ s ∈ S, hitE ns vs s (nodeEvent c.node) = hitR ns (toXVars vs) s c := fun s hs => hhit s hs c.loc
+  refine ⟨(aLoop_sem ns vs S c c (nodeEvent c.node) hna hnp hh fuel _ ⟨[], false⟩ hinv).2, fun t => ?_⟩
+  have h1 := (aLoop_sem ns vs S c t (nodeEvent c.node) hna hnp hh fuel _ ⟨[], false⟩ hinv).1
+  have hstart : Phi ns vs S c t (P.map fun x => ((x, true) : AEntry)) ⟨[], false⟩
+      = P.any (fun x => RR ns (toXVars vs) S x c t) := by
+    unfold Phi CHN
+    simp only [List.any_map, List.any_nil, Bool.false_and, Bool.or_false]
+    have : ((childrenOf c).any fun _ => false) = false := by
+      induction childrenOf c with
+      | nil => rfl
+      | cons _ _ ih => simp [ih]
+    rw [this, Bool.or_false]
+    apply any_congr_mem
+    intro x hx
+    have hxl := hP.2 x hx
+    obtain ⟨s, hs⟩ : ∃ s, S[x]? = some s := ⟨S[x], List.getElem?_eq_getElem hxl⟩
+    have hmem : s ∈ S := List.mem_of_getElem? hs
+    simp only [Function.comp]
+    rw [Vq_some ns vs S c t x true s hs, RR_unfold ns (toXVars vs) S x s hs (hnp s hmem) (hna s hmem) c t]
+    simp [isDescLike, CH]
+  rw [← hstart, h1]
+  simp [Phi]
+
+/-- fuel and queue of `aStep` at a non-END, non-marker event -/
+theorem aStep_run (P : List Nat) (A : AState) (e : Event) (he : e.isEnd = false) (hm : e.isNsOrCdata = false) :
+    aStep ns vs S (P :: A) e =
+      let acc := aLoop ns vs S (realLen S) e (2 * S.length + (P.map fun x => ((x, true) : AEntry)).length + 2)
+        (P.map fun x => (x, true)) ⟨[], false⟩
+      (if e.isStart then acc.nextPos :: P :: A else P :: A, if acc.matched then .bool true else .none) := by
+  simp [aStep, he, hm]
+
+theorem aStep_end (st : AState) (tg : QName) : aStep ns vs S st (.end_ tg) = (st.drop 1, .none) := by
+  simp [aStep, Event.isEnd]
+
+end
+
+mutual
+  /-- the abstract matcher over the events of a tree, started with the positions `P` for its
+      root: the stack is restored, and the marked nodes are those reached from `P` -/
+  theorem aTree (ns : NsMap) (vs : Vars) (S : List Step) (hrl : realLen S = S.length) (hna : ∀ s ∈ S, s.axis ≠ .attribute)
+      (hnp : ∀ s ∈ S, NonPositional ns (toXVars vs) s) :
+      ∀ (n : Node), n.clean = true → AllNodes (HitOk ns vs S) n → ∀ (loc : List Nat) (P : List Nat) (A : AState),
+        NOut S P →
+        (runOne (aStep ns vs S) (P :: A) n.flatten).2 = P :: A ∧
+        ∀ t : LNode, selB (runOne (aStep ns vs S) (P :: A) n.flatten).1 (eventLocs n loc) t.loc
+          = P.any fun x => RR ns (toXVars vs) S x ⟨loc, n⟩ t
+    | .elem tg ats ks, hcl, hall, loc, P, A, hP => by
+        have hv := aVisit ns vs S hna hnp ⟨loc, .elem tg ats ks⟩ hall.1 P hP
+          (2 * S.length + (P.map fun x => ((x, true) : AEntry)).length + 2) (by omega)
+        have hrun := aStep_run ns vs S P A (.start tg ats) rfl rfl
+        rw [hrl] at hrun
+        simp only [Event.isStart, if_true] at hrun
+        simp only [nodeEvent] at hv
+        have hk := aTreeList ns vs S hrl hna hnp ks (by simpa [Node.clean] using hcl) hall.2 loc 0 _ (P :: A) hv.1
+        simp only [Node.flatten, eventLocs, runOne_cons, runOne_append]
+        rw [hrun]
+        simp only []
+        rw [hk.1]
+        refine ⟨by simp [runOne, aStep_end], fun t => ?_⟩
+        rw [selB_cons, selB_append _ _ _ _ (by rw [runOne_length, eventLocsList_length]), hk.2 t, hv.2 t]
+        simp [runOne, aStep_end, selB, matched, CHN, childrenOf, Val.truthy]
+        cases (aLoop ns vs S S.length (Event.start tg ats) (2 * S.length + P.length + 2)
+          (List.map (fun x => (x, true)) P) ⟨[], false⟩).matched <;> simp [Val.truthy]
+    | .leaf e, hcl, hall, loc, P, A, hP => by
+        simp only [Node.clean, Bool.and_eq_true, Bool.not_eq_true'] at hcl
+        obtain ⟨hend, hstart⟩ := isEnd_of_not_startEnd hcl.1
+        have hv := aVisit ns vs S hna hnp ⟨loc, .leaf e⟩ hall P hP
+          (2 * S.length + (P.map fun x => ((x, true) : AEntry)).length + 2) (by omega)
+        have hrun := aStep_run ns vs S P A e hend hcl.2
+        rw [hrl] at hrun
+        simp only [hstart, Bool.false_eq_true, if_false] at hrun
+        simp only [nodeEvent] at hv
+        simp only [Node.flatten, eventLocs, runOne_cons, hrun]
+        refine ⟨by simp [runOne], fun t => ?_⟩
+        rw [hv.2 t]
+        simp [runOne, selB, matched, CHN, childrenOf]
+        cases (aLoop ns vs S S.length e (2 * S.length + P.length + 2)
+          (List.map (fun x => (x, true)) P) ⟨[], false⟩).matched <;> simp [Val.truthy]
+  theorem aTreeList (ns : NsMap) (vs : Vars) (S : List Step) (hrl : realLen S = S.length) (hna : ∀ s ∈ S, s.axis ≠ .attribute)
+      (hnp : ∀ s ∈ S, NonPositional ns (toXVars vs) s) :
+      ∀ (ks : List Node), cleanList ks = true → AllList (HitOk ns vs S) ks → ∀ (loc : List Nat) (i : Nat)
+        (N : List Nat) (A : AState), NOut S N →
+        (runOne (aStep ns vs S) (N :: A) (flattenList ks)).2 = N :: A ∧
+        ∀ t : LNode, selB (runOne (aStep ns vs S) (N :: A) (flattenList ks)).1 (eventLocsList ks loc i) t.loc
+          = ((ks.zipIdx i).map fun (k, j) => (⟨loc ++ [j], k⟩ : LNode)).any
+              fun k => N.any fun y => RR ns (toXVars vs) S y k t
+    | [], _, _, loc, i, N, A, _ => by simp [Genshi.flattenList, eventLocsList, runOne, selB, matched]
+    | k :: ks, hcl, hall, loc, i, N, A, hN => by
+        simp only [cleanList, Bool.and_eq_true] at hcl
+        have h1 := aTree ns vs S hrl hna hnp k hcl.1 hall.1 (loc ++ [i]) N A hN
+        have h2 := aTreeList ns vs S hrl hna hnp ks hcl.2 hall.2 loc (i + 1) N A hN
+        simp only [Genshi.flattenList, eventLocsList, runOne_append]
+        rw [h1.1]
+        refine ⟨h2.1, fun t => ?_⟩
+        rw [selB_append _ _ _ _ (by rw [runOne_length, eventLocs_length]), h1.2 t, h2.2 t]
+        simp [List.zipIdx_cons]
+end
+
 end
 end Genshi.Path
